@@ -30,6 +30,17 @@ class Opaque:
         return f"Opaque({self.reason})"
 
 
+class BadTypeV:
+    """what a field annotation evaluates to when it is not a type (a bound method that was not called ...)"""
+
+    def __init__(self, what):
+        self.what = what
+        self.name = f"<{what}>"
+
+    def __repr__(self):
+        return f"<not a type: {self.what}>"
+
+
 class InstanceV:
     """an object of a plain class of the layout modules whose __init__ only stores values: the stored attributes"""
 
@@ -261,6 +272,7 @@ def as_int(v):
 # ----------------------------------------------------------------------------- evaluator
 class SpecModel:
     def __init__(self, project: Project):
+        self.bad_annotations = []   # (class, field, what) for annotations that are not types
         self.project = project
         self.envs: dict[str, dict] = {}
         self.loading = set()
@@ -483,6 +495,12 @@ class SpecModel:
                 for f in b.fields:
                     fields = [g for g in fields if g[0] != f[0]] + [f] if any(g[0] == f[0] for g in fields) else fields + [f]
         for n, t in cls.ann.items():
+            t = self.force(t) if not isinstance(t, (ClassV, ListT)) and t is not None else t
+            if isinstance(t, BoundV):
+                # a method object where a type belongs (`T.plus` for `T.plus()`): the layout has no type for this field
+                what = f"{getattr(t.self, 'name', t.self)!s}.{t.func if isinstance(t.func, str) else t.func.node.name}"
+                self.bad_annotations.append((cls, n, what))
+                t = BadTypeV(f"method {what}")
             if any(g[0] == n for g in fields):
                 fields = [(n, t) if g[0] == n else g for g in fields]
             else:
